@@ -165,6 +165,17 @@ def run(tier, only=None):
         R.case(["continuity", r["k"]], True, section="continuity")
         for sig, p in r["bad"]:
             R.violation(sig, {"k": r["k"], "detail": p})
+    # the compressible pipeline receives the point's flight condition in every group that offers the option (OASWiring)
+    from .. import builders as B
+    from .. import wiring
+
+    for rot in (False, True):
+        am = B.AeroModel([dict(name="wing", nx=2, ny=3, sym=False, side="F", shape="swept", visc=True)], compressible=True, rotational=rot, rng=np.random.default_rng(2))
+        am.prob.final_setup()
+        wiring.check(R, am.prob, "aero", "aero:compressible:rotational=%s" % rot)
+        sm = B.ASModel([dict(name="wing", nx=2, ny=5, sym=False, side="F", shape="swept", visc=True, fem="tube", span=20.0, chord=3.0)], compressible=True, rotational=rot, rng=np.random.default_rng(2))
+        sm.prob.final_setup()
+        wiring.check(R, sm.prob, "AS_point_0", "aerostruct:compressible:rotational=%s" % rot)
     R.assume("Pythagorean (cos, sin) pairs make the rotation algebra exact in TLC; conformance also draws |alpha|,|beta| <= 15 deg, M in [0, 0.94)", "continuity: no first difference on a 48-point Mach grid exceeds 20x its neighbours")
     return R.finish({"exhaustive": True, "pg_states": len(states)})
 
